@@ -893,10 +893,21 @@ impl<'a> Evaluator<'a> {
                 }
                 Ok(Val::List(v))
             }
-            _ => match (self.call_hook)(self, &format!("{}!", name), &[]) {
-                Some(r) => r,
-                None => Err(format!("unsupported macro {}!", name)),
-            },
+            // a macro of the analysed crate: a rule may model it; it is handed the arguments that parse as expressions,
+            // evaluated as far as they can be (a bare fn name or anything unmodelled arrives as an opaque value)
+            _ => {
+                let args: Vec<Val> = match crate::model::macro_args(m) {
+                    Some(a) => a.iter().map(|e| match e {
+                        syn::Expr::Path(p) if p.path.segments.len() == 1 && !_env.contains_key(&p.path.segments[0].ident.to_string()) => Val::Sym(p.path.segments[0].ident.to_string()),
+                        e => { let mut probe = _env.clone(); self.eval(e, &mut probe).unwrap_or(Val::Opaque("macro argument".into())) }
+                    }).collect(),
+                    None => vec![],
+                };
+                match (self.call_hook)(self, &format!("{}!", name), &args) {
+                    Some(r) => r,
+                    None => Err(format!("unsupported macro {}!", name)),
+                }
+            }
         }
     }
 
